@@ -170,6 +170,11 @@ func Value(r *Rand, t *schema.Type, c *ValCfg, optional bool, depth int) reflect
 		if t.Key.K == schema.I8 && n > 200 {
 			n = 200
 		}
+		if t.Key.K == schema.StructK && t.Key.S.Go.Size() == 0 && n > 1 {
+			// all pointers to a zero-size struct are equal in Go: such a map
+			// cannot hold two distinct keys after decoding (not generated)
+			n = 1
+		}
 		for tries := 0; m.Len() < n && tries < 4*n+16; tries++ {
 			k := Value(r, t.Key, c, false, depth+1)
 			if t.Key.K == schema.Double && k.Float() != k.Float() && m.Len() > 0 && !r.Chance(1, 4) {
